@@ -436,7 +436,7 @@ struct E1 : Engine {
 			if(slow_reader_plan){ J rp2 = J::arr();   /* asynchronous mounts only: behind a synchronous application a slow reader legitimately ties up a worker thread and starves the other connections */ rp2.push((int)(500 + r.below(3000))); c["read_pace"] = rp2; c["read_delay_ms"] = (int)(cfg.geti("http_timeout",10) * (100 + (int)r.below(300))); c["cap_to_client"] = 2048 + (int)r.below(4096); }   // slow reader: small reads with a pause of 0.1..0.4 x http.timeout after each
 			bool bad_conn = !fwd_plan && ((prop == "C02" && (ci == 0 || r.below(2))) || (prop == "C12" && r.below(4) == 0));   // C12: the last request of a quarter of the connections carries a malformed / mis-sized upload
 			bool http11 = r.below(2); c["http11"] = http11; c["pipeline"] = (int)(!fwd_plan && r.below(3) == 0); int nreq = proto == 1 ? 1 : 1 + r.below(bad_conn ? 2 : 4); bool ka = nreq > 1 || r.below(3) == 0; c["keepalive"] = ka;
-			{ int narrow = std::min((int)cfg.geti("input_buffer_size"),(int)c.geti("cap_to_server")); gen_budget() = narrow <= 8 ? 2500 : narrow <= 64 ? 16000 : 1u<<30; }
+			{ int narrow = std::min(std::min((int)cfg.geti("input_buffer_size"),(int)c.geti("cap_to_server")),(int)c.geti("cap_to_client"));   /* the echo comes back through the channel to the client: form fields are echoed in full */ gen_budget() = narrow <= 8 ? 2500 : narrow <= 64 ? 16000 : 1u<<30; }
 			J exs = J::arr();
 			for(int i=0;i<nreq;i++){ J e = J::obj(); { char tb[40]; snprintf(tb,sizeof(tb),"q%dz%06llx",tagn,(unsigned long long)(wire::fnv("tag" + std::to_string(tagn)) & 0xffffff)); tagn++; e["tag"] = tb; }   // self-checking: a mutated tag cannot turn into another request's tag
 				if(prop == "C03" || (prop != "C01" && r.below(4) == 0)){
@@ -631,7 +631,8 @@ struct E1 : Engine {
 		sp.max_steps = 6000000; sp.text_trace = plan.geti("text_trace");
 		// a reader that takes a few bytes per step needs steps in proportion to what it has to read: the limit exists to catch runs that make no progress, not long ones
 		{ uint64_t extra = 0; const J &pc = plan.get("conns"); for(size_t ci=0;ci<pc.size() && ci<16;ci++){ const J &jc = pc.a[ci]; const J &rp = jc.get("read_pace"); int64_t pace = 1 << 20; for(size_t i=0;i<rp.size();i++) if(rp.a[i].as_int() > 0) pace = std::min<int64_t>(pace,rp.a[i].as_int()); pace = std::min<int64_t>(pace,std::max<int64_t>(1,jc.geti("cap_to_client",4096)));
-			const J &ex = jc.get("ex"); for(size_t k=0;k<ex.size() && k<16;k++) if(ex.a[k].gets("kind") == "writer") extra += (uint64_t)script_body(normalise_script(ex.a[k].gets("script")),0).size() / (uint64_t)pace; }
+			const J &ex = jc.get("ex"); for(size_t k=0;k<ex.size() && k<16;k++) if(ex.a[k].gets("kind") == "writer") extra += (uint64_t)script_body(normalise_script(ex.a[k].gets("script")),0).size() / (uint64_t)pace;
+				else { const J &pts = ex.a[k].get("req").get("parts"); uint64_t fields = 0; for(size_t q=0;q<pts.size() && q<64;q++) if(!pts.a[q].has("ctype")) fields += (uint64_t)std::max<int64_t>(0,std::min<int64_t>(pts.a[q].geti("len"),1<<20)); extra += fields / (uint64_t)pace; } }   /* form fields are echoed in full */
 		  sp.max_steps += std::min<uint64_t>(extra,1000000) * 80; }
 		simk::begin(sp);
 		const J &cfg = plan.get("cfg");
